@@ -84,6 +84,7 @@ func containerExistsAt(a *Analysis, st *CNF, cid *Term) bool {
 
 func runC04(cx *CheckCtx) {
 	w := cx.W
+	checkLoaders(cx, cnrPkg)
 	c := cx.contract("container")
 	if c == nil {
 		return
@@ -786,7 +787,6 @@ func checkDistinctCounting(cx *CheckCtx, fn *ssa.Function) {
 		cx.violated("distinct-principal", key, "the result of the signature check is not branched on", w.pos(V.Pos()))
 		return
 	}
-	T := vIf.Block().Succs[0]
 	// (b) membership test: in place, through a flag, or through a contains helper (membershipGuard)
 	okDom, memIf, coll := membershipGuard(fn, func(v ssa.Value) bool { return v == pub }, vb)
 	if memIf == nil {
@@ -801,7 +801,7 @@ func checkDistinctCounting(cx *CheckCtx, fn *ssa.Function) {
 		for v := range phiClosure(cphi) {
 			if base, elems, ok := appendOf(v); ok && phiClosure(cphi)[base] {
 				for _, e := range elems {
-					if e == pub && T.Dominates(valueBlock(v)) {
+					if e == pub && viaEdge(vIf.Block(), 0, valueBlock(v)) {
 						okIns = true
 					}
 				}
@@ -819,7 +819,7 @@ func checkDistinctCounting(cx *CheckCtx, fn *ssa.Function) {
 			incs, other := 0, 0
 			for v := range phiClosure(p) {
 				if bo, ok := v.(*ssa.BinOp); ok {
-					if bo.Op == token.ADD && phiClosure(p)[stripConv(bo.X)] && isConstInt(bo.Y, 1) && T.Dominates(bo.Block()) {
+					if bo.Op == token.ADD && phiClosure(p)[stripConv(bo.X)] && isConstInt(bo.Y, 1) && viaEdge(vIf.Block(), 0, bo.Block()) {
 						incs++
 					} else {
 						other++
@@ -904,6 +904,28 @@ func checkDistinctCounting(cx *CheckCtx, fn *ssa.Function) {
 							for _, alt := range tb.Alts(ot.Args[0]) {
 								if alt.Op == "find" && alt.Args[0] == tb.cat(tb.constBytes("r"), cid) {
 									okCmp = true
+									// … and it is the true side of that comparison that moves on to the next
+									// vector: every way back to the per-vector loop header passes it
+									if refs := bo.Referrers(); refs != nil {
+										for _, rr := range *refs {
+											ifi, isIf := rr.(*ssa.If)
+											if !isIf {
+												continue
+											}
+											outer := enclosingLoops(vb)
+											if len(outer) == 0 {
+												okCmp = false
+												continue
+											}
+											oh := outer[len(outer)-1]
+											inOuter := loopBlocks(oh)
+											for _, latch := range oh.Preds {
+												if inOuter[latch] && !viaEdge(ifi.Block(), 0, latch) {
+													okCmp = false
+												}
+											}
+										}
+									}
 								}
 							}
 						}
